@@ -133,7 +133,7 @@ func settle(mem amhist.MemoryApi) (int, error) {
 		want = max
 	}
 	last, stable := -1, 0
-	for i := 0; i < 400; i++ {
+	for i := 0; i < 1500; i++ {
 		time.Sleep(15 * time.Millisecond)
 		l, err := list(mem)
 		if err != nil {
@@ -145,7 +145,7 @@ func settle(mem amhist.MemoryApi) (int, error) {
 			stable = 0
 			last = len(l)
 		}
-		if stable >= 6 && (last >= want || stable >= 100) {
+		if stable >= 6 && (last >= want || stable >= 400) {
 			break
 		}
 	}
